@@ -120,6 +120,7 @@ class Canon(object):
         # monomial is never distributed over them
         self.protected = set(protected or ())
         self._seen = set()
+        self._sumlin = {}
 
     def structural_sums(self):
         """Interned 'sum' bases that occur in a denominator or with an
@@ -273,8 +274,10 @@ class Canon(object):
                 continue
             if q.denominator == 1:
                 put(intern_key(('expm', k)), int(q))
-            else:
+            elif q > 0:
                 put(intern_key(('expq', k, q)), 1)
+            else:
+                put(intern_key(('expq', k, -q)), -1)
         if not num and not den:
             return Lin(Fraction(1))
         return self.term(num, den, Fraction(1))
@@ -444,13 +447,105 @@ class Canon(object):
                             coef[kk] = coef.get(kk, 0) + vv
                 c = coef.pop(None, Fraction(0))
                 l = Lin(c, coef)
+        # sums of exponentials: l and M * l (M a non-zero monomial) must get
+        # the same base (log-sum-exp shifts).  Divide by one of the terms;
+        # which one is decided by a total order on the *results*, so that
+        # every member of the class {M * l} picks the same representative.
+        if self._has_exp(l):
+            cands = []
+            terms = list(l.coef.items())
+            if l.const != 0:
+                terms.append((None, l.const))
+            for k, v in terms:
+                n, d = ({}, {}) if k is None else _parts(k)
+                if not all(b in self.nz for b in list(n) + list(d)):
+                    continue
+                cand = self._scale_by_mono(l, d, n, Fraction(1) / v)
+                cands.append((cand.key(), cand, v, n, d))
+            if cands:
+                _, l, v, n, d = min(cands, key=lambda c: c[0])
+                num, den = _mono_mul((num, den), (n, d))
+                b = intern_key(('sum', l.key()))
+                self._sumlin[b] = l
+                return v, num, den, b
         if l.coef:
             k0 = min(l.coef)
             c0 = l.coef[k0]
         else:
             c0 = l.const
-        return c0, num, den, intern_key(
-            ('sum', l.scaled(Fraction(1) / c0).key()))
+        ln = l.scaled(Fraction(1) / c0)
+        b = intern_key(('sum', ln.key()))
+        self._sumlin[b] = ln
+        return c0, num, den, b
+
+    def clear_denominators(self, d, rounds=6):
+        """d == 0  <=>  d * S^k == 0 for a non-zero sum S: multiply the
+        residual by the sums occurring in its denominators and expand them.
+        Returns the cleared residual (a Lin)."""
+        for _ in range(rounds):
+            target = None
+            kmax = 0
+            for k in d.coef:
+                n, dd = _parts(k)
+                for b, e in dd.items():
+                    if _KIND.get(b) == 'sum' and b in self.nz and \
+                            b in self._sumlin:
+                        if e > kmax:
+                            target, kmax = b, e
+            if target is None:
+                return d
+            S = self._sumlin[target]
+            out = Lin()
+            if d.const != 0:
+                t = Lin(d.const)
+                for _i in range(kmax):
+                    t = self._mul_expand(t, S)
+                out = out.plus(t)
+            for k, v in d.coef.items():
+                n, dd = _parts(k)
+                e = dd.pop(target, 0)
+                # numerator occurrences of the same sum are expanded too
+                en = n.pop(target, 0)
+                t = self.term(n, dd, v)
+                for _i in range(kmax - e + en):
+                    t = self._mul_expand(t, S)
+                out = out.plus(t)
+            d = out
+            if len(d.coef) > 400:
+                return d
+        return d
+
+    def _mul_expand(self, a, b):
+        """full distribution of two Lins (no opaque products)"""
+        out = Lin(a.const * b.const)
+        for k, v in a.coef.items():
+            if b.const != 0:
+                out = out.plus(Lin(Fraction(0), {k: v * b.const}))
+            for k2, v2 in b.coef.items():
+                n, d = _mono_mul(_parts(k), _parts(k2))
+                out = out.plus(self.term(n, d, v * v2))
+        if a.const != 0:
+            for k2, v2 in b.coef.items():
+                out = out.plus(Lin(Fraction(0), {k2: v2 * a.const}))
+        return out
+
+    def _has_exp(self, l):
+        for k in l.coef:
+            n, d = _parts(k)
+            for b in list(n) + list(d):
+                if _KIND.get(b) in ('expm', 'expq', 'expc'):
+                    return True
+        return False
+
+    def _scale_by_mono(self, l, n, d, c):
+        """(c * n/d) * l, distributed term by term"""
+        out = Lin()
+        if l.const != 0:
+            out = out.plus(self.term(dict(n), dict(d), c * l.const))
+        for k, v in l.coef.items():
+            nn, dd = _mono_mul((n, d), _parts(k))
+            out = out.plus(self.term(nn, dd, c * v))
+        return out
 
     def _go(self, u):
         op = u.op
